@@ -18,7 +18,8 @@ EXPLANATION = (
     "manifest entries take snapshot id / sequence number from the DataFile, added entries from the commit; the reader restores "
     "both; (R4) one snapshot id and one sequence number per commit reach every writer; (R5) the mutator cannot remove the "
     "committing snapshot; (R6) metadata log: entry = superseded file, trimmed keeping the newest, applied before the metadata "
-    "write; (R7) the delete filter compares paths for equality with BOTH operands under the same leading-slash normalisation.")
+    "write; (R7) the delete filter compares paths for equality with BOTH operands under the same leading-slash normalisation."
+    ' Also: (R0) parent repointing walks each survivor independently (no state shared between survivors).')
 NOT_DECIDED = ("the invariants over operation histories (parents are true ancestors, log order, retention with out-of-order "
                "timestamps) at run time")
 
